@@ -1121,6 +1121,36 @@ pub fn gen_many_cells(rng: &mut Rng) -> (Vec<u32>, Vec<u32>) {
     (old, new)
 }
 
+/// More than 2^16 items that are unique and common to both sides in one run
+/// (between differing first and last items, so that nothing is stripped as a
+/// common prefix or suffix), optionally with a second, short run behind a
+/// change.
+pub fn gen_long_anchor_run(rng: &mut Rng) -> (Vec<u32>, Vec<u32>) {
+    let n = (1 << 16) + 10 + rng.usize(5000);
+    // mostly the differing items around the run are repeated, i.e. not unique
+    // themselves: then the lists of unique items of the two sides are equal
+    // and the whole run is one `equal` of the unique-item diff even when the
+    // deadline has run out
+    let dup = rng.chance(3, 4);
+    let rep = |x: u32| if dup { vec![x, x] } else { vec![x] };
+    let mut old = rep(1);
+    let mut new = rep(2);
+    new.extend(rep(3));
+    old.extend((0..n as u32).map(|i| 100 + i));
+    new.extend((0..n as u32).map(|i| 100 + i));
+    if rng.chance(1, 2) {
+        old.extend(rep(4));
+        old.extend(rep(5));
+        new.extend(rep(6));
+        let k = 3 + rng.below(50) as u32;
+        old.extend((0..k).map(|i| 10_000_000 + i));
+        new.extend((0..k).map(|i| 10_000_000 + i));
+    }
+    old.extend(rep(7));
+    new.extend(rep(8));
+    (old, new)
+}
+
 /// `old = B`, `new = B B` with more than 4096 items in B: the appended copy
 /// is an insertion that can slide up by a whole block.
 pub fn gen_big_slide(rng: &mut Rng) -> (Vec<u32>, Vec<u32>) {
